@@ -44,6 +44,8 @@ Lemma get_db_set_conn s c cn j : get_db (set_conn s c cn) j = get_db s j.
 Proof. reflexivity. Qed.
 Lemma get_db_log_aof s p j : get_db (log_aof s p) j = get_db s j.
 Proof. reflexivity. Qed.
+Lemma get_db_log_after now s dbi d' name parts r j : get_db (log_after now s dbi d' name parts r) j = get_db s j.
+Proof. reflexivity. Qed.
 
 (** ================= C17: the authentication gate ================= *)
 (** the command word process_frame looks at *)
@@ -172,8 +174,8 @@ Proof.
   unfold dispatch_command, cmd_name. intros H Hf Hd j Hj Hn.
   destruct parts as [|first rest]; [inversion H; subst; reflexivity|].
   destruct first; try (inversion H; subst; reflexivity).
-  set (s0 := if mem_name (upper b) write_commands then log_aof_in s dbi (FBulk b :: rest) else s) in *.
-  assert (H0 : get_db s0 j = get_db s j) by (unfold s0; destruct (mem_name (upper b) write_commands); [unfold log_aof_in; destruct (same_db _ _)|]; reflexivity).
+  set (s0 := if logs_before (upper b) (FBulk b :: rest) then log_aof_in s dbi (FBulk b :: rest) else s) in *.
+  assert (H0 : get_db s0 j = get_db s j) by (unfold s0; destruct (logs_before (upper b) (FBulk b :: rest)); [unfold log_aof_in; destruct (same_db _ _)|]; reflexivity).
   rewrite <- H0. clear H0.
   destruct (beq (upper b) (bs "PING")); [inversion H; subst; reflexivity|].
   destruct (beq (upper b) (bs "ECHO")); [inversion H; subst; reflexivity|].
@@ -192,7 +194,7 @@ Proof.
   destruct (beq (upper b) (bs "VERIF")); [inversion H; subst; reflexivity|].
   destruct (exec_db now (get_db s0 dbi) (upper b) (FBulk b :: rest) oracle) as [[r0 d']|];
     inversion H; subst; [|reflexivity].
-  rewrite get_db_set_trk. apply get_db_set_db_other; lia.
+  rewrite get_db_log_after, get_db_set_trk. apply get_db_set_db_other; lia.
 Qed.
 Lemma normal_command_frame now s c dbi parts oracle r s' :
   normal_command now s c dbi parts oracle = (r, s') ->
@@ -224,7 +226,7 @@ Qed.
 Lemma select_spec now s c dbi a oracle cn :
   zlookup c (s_conns s) = Some cn ->
   let s1 := lazy_expire now s dbi (bs "SELECT") [FBulk (bs "SELECT"); FBulk a] in
-  let s0 := if mem_name (bs "SELECT") write_commands then log_aof_in s1 dbi [FBulk (bs "SELECT"); FBulk a] else s1 in
+  let s0 := if logs_before (bs "SELECT") [FBulk (bs "SELECT"); FBulk a] then log_aof_in s1 dbi [FBulk (bs "SELECT"); FBulk a] else s1 in
   normal_command now s c dbi [FBulk (bs "SELECT"); FBulk a] oracle =
     match parse_usize a with
     | Some n => if 16 <=? n then (r_err, s0)
@@ -240,7 +242,7 @@ Proof.
   change (beq (bs "SELECT") (bs "SELECT")) with true. cbv iota.
   fold s1. fold s0. destruct (parse_usize a); [|reflexivity]. destruct (16 <=? z); [reflexivity|].
   assert (Hc0 : zlookup c (s_conns s0) = Some cn).
-  { unfold s0. destruct (mem_name (bs "SELECT") write_commands);
+  { unfold s0. destruct (logs_before (bs "SELECT") [FBulk (bs "SELECT"); FBulk a]);
       [unfold log_aof_in; destruct (same_db _ _)|]; cbn [log_aof s_conns];
       unfold s1; rewrite (proj1 (lazy_expire_rest _ _ _ _ _)); exact Hc. }
   rewrite Hc0. reflexivity.
@@ -358,8 +360,8 @@ Proof.
   unfold dispatch_command. intros H c' Hn H0.
   destruct parts as [|first rest]; [inversion H; subst; reflexivity|].
   destruct first; try (inversion H; subst; reflexivity).
-  set (s0 := if mem_name (upper b) write_commands then log_aof_in s dbi (FBulk b :: rest) else s) in *.
-  assert (Hs0 : s_conns s0 = s_conns s) by (unfold s0; destruct (mem_name (upper b) write_commands); [unfold log_aof_in; destruct (same_db _ _)|]; reflexivity).
+  set (s0 := if logs_before (upper b) (FBulk b :: rest) then log_aof_in s dbi (FBulk b :: rest) else s) in *.
+  assert (Hs0 : s_conns s0 = s_conns s) by (unfold s0; destruct (logs_before (upper b) (FBulk b :: rest)); [unfold log_aof_in; destruct (same_db _ _)|]; reflexivity).
   rewrite <- Hs0. clear Hs0.
   destruct (beq (upper b) (bs "PING")); [inversion H; subst; reflexivity|].
   destruct (beq (upper b) (bs "ECHO")); [inversion H; subst; reflexivity|].
@@ -641,8 +643,8 @@ Proof.
     revert H. unfold dispatch_command.
     destruct parts as [|first rest]; [intros H; inversion H; reflexivity|].
     destruct first; try (intros H; inversion H; reflexivity).
-    set (s0 := if mem_name (upper b) write_commands then log_aof_in s dbi (FBulk b :: rest) else s).
-    assert (Hp0 : s_password s0 = s_password s) by (unfold s0; destruct (mem_name (upper b) write_commands); [unfold log_aof_in; destruct (same_db _ _)|]; reflexivity).
+    set (s0 := if logs_before (upper b) (FBulk b :: rest) then log_aof_in s dbi (FBulk b :: rest) else s).
+    assert (Hp0 : s_password s0 = s_password s) by (unfold s0; destruct (logs_before (upper b) (FBulk b :: rest)); [unfold log_aof_in; destruct (same_db _ _)|]; reflexivity).
     rewrite <- Hp0. clear Hp0.
     destruct (beq (upper b) (bs "PING")); [intros H; inversion H; reflexivity|].
     destruct (beq (upper b) (bs "ECHO")); [intros H; inversion H; reflexivity|].
